@@ -21,12 +21,12 @@ import (
 
 func init() {
 	simkit.Register(&simkit.Prop{
-		ID:   "C16",
-		Desc: "only correctly signed transactions paid by a signer are accepted",
-		Rule: "a run = 8..40 client transactions (1..3 signature sets, single keys of every scheme incl. Ethereum-type, m-of-n groups, canonical and hand-assembled scripts) each altered in flight by a tape-chosen fault: none / one byte anywhere / a byte inside a signature / the payer / a signature set spliced in from another transaction / set duplicated / set dropped / m lowered in the script / a key listed twice with two signatures of the same signer / signatures reordered. The node's intake (TransactionFromRawBytes + validation.VerifyTransaction) must accept only if an independent verifier accepts: every set has >= m DISTINCT listed keys with a valid signature over the transaction hash and the payer is an account of one of the sets. non-trivial = >= 1 altered transaction accepted-or-rejected with the oracle evaluated and >= 1 unaltered accepted; distinct = distinct event-trace hash",
-		Real: []string{"core/types transaction decoding", "core/validation.VerifyTransaction", "core/program script parsing", "core/signature, ontology-crypto"},
-		Stub: []string{"client and corrupting link (harness)", "independent verifier (harness; uses the repo's script PARSER for structure, its own distinct-key counting and ontology-crypto for signatures)"},
-		Assumptions: []string{"the direction checked is 'accepted only if' (soundness); an honest transaction being rejected is only counted (probe)", "script structure is taken from core/program.GetProgramInfo (trusted for structure, not for counting)"},
+		ID:             "C16",
+		Desc:           "only correctly signed transactions paid by a signer are accepted",
+		Rule:           "a run = 8..40 client transactions (1..3 signature sets, single keys of every scheme incl. Ethereum-type, m-of-n groups, canonical and hand-assembled scripts) each altered in flight by a tape-chosen fault: none / one byte anywhere / a byte inside a signature / the payer / a signature set spliced in from another transaction / set duplicated / set dropped / m lowered in the script / a key listed twice with two signatures of the same signer / m signatures by fewer than m distinct members (a member signs twice, adjacent or not). A third of the transactions reach the validator after the tx pool's sender-limit check (GetSignatureAddresses on the same object, as for the transactions of a proposed block). The node's intake (TransactionFromRawBytes + validation.VerifyTransaction) must accept only if an independent verifier accepts: every set has >= m DISTINCT listed keys with a valid signature over the transaction hash and the payer is an account of one of the sets. non-trivial = >= 1 altered transaction accepted-or-rejected with the oracle evaluated and >= 1 unaltered accepted; distinct = distinct event-trace hash",
+		Real:           []string{"core/types transaction decoding", "core/validation.VerifyTransaction", "core/program script parsing", "core/signature, ontology-crypto"},
+		Stub:           []string{"client and corrupting link (harness)", "independent verifier (harness; uses the repo's script PARSER for structure, its own distinct-key counting and ontology-crypto for signatures)"},
+		Assumptions:    []string{"the direction checked is 'accepted only if' (soundness); an honest transaction being rejected is only counted (probe)", "script structure is taken from core/program.GetProgramInfo (trusted for structure, not for counting)"},
 		ExpectedProbes: []string{"unaltered_accepted", "altered_rejected", "altered_still_accepted_and_valid"},
 		Run:            runC16,
 	})
@@ -132,7 +132,7 @@ func runC16(c *simkit.Ctx) {
 				sets = append(sets, clSignSet(c, p, hash, !t.Prob(1, 3)))
 			}
 			fault := t.Pick(3, 3, 3, 3, 2, 2, 2, 2, 3, 2)
-			name := []string{"none", "flip-any-byte", "flip-signature-byte", "change-payer", "splice-foreign-set", "duplicate-set", "drop-set", "lower-m", "duplicate-key", "reorder-signatures"}[fault]
+			name := []string{"none", "flip-any-byte", "flip-signature-byte", "change-payer", "splice-foreign-set", "duplicate-set", "drop-set", "lower-m", "duplicate-key", "repeated-signer"}[fault]
 			switch fault {
 			case 4:
 				if len(prevSets) > 0 {
@@ -187,18 +187,24 @@ func runC16(c *simkit.Ctx) {
 					s1, _ = signature.Sign(a, hash[:])
 					s2, _ = signature.Sign(a, hash[:])
 					sets = []clSigSet{{invoke: programFromSigs([][]byte{s1, s2}), verify: clVerifyScript([][]byte{k, k}, 2)}}
-				case 9: // same signatures, the m-th replaced by a repeat of the first
+				case 9: // m signatures by fewer than m distinct members: every position tape-chosen, at least one member twice (adjacent or not)
 					if grp.m >= 2 && len(grp.accs) > 1 {
 						var keys [][]byte
 						for _, a := range grp.accs {
 							keys = append(keys, keypair.SerializePublicKey(a.PublicKey))
 						}
-						s1, _ := signature.Sign(grp.accs[0], hash[:])
+						who := make([]int, grp.m)
+						for k := range who {
+							who[k] = t.Choose(len(grp.accs))
+						}
+						who[grp.m-1] = who[t.Choose(grp.m-1)] // the last one repeats an earlier signer
 						var sigs [][]byte
-						for k := 0; k < grp.m; k++ {
-							sigs = append(sigs, s1)
+						for _, k := range who {
+							sg, _ := signature.Sign(grp.accs[k], hash[:])
+							sigs = append(sigs, sg)
 						}
 						sets[gi] = clSigSet{invoke: programFromSigs(sigs), verify: clVerifyScript(keys, grp.m)}
+						c.Logf("repeated signer: m=%d n=%d signers by position %v", grp.m, len(grp.accs), who)
 					}
 				}
 			}
@@ -222,8 +228,9 @@ func runC16(c *simkit.Ctx) {
 				names += p.name + ","
 			}
 			c.Logf("tx %d fault=%s signers=[%s] %d bytes", i, name, names, len(raw))
-			tx, why := acceptTx(raw)
-			c.Logf("  -> accepted=%v %s", tx != nil, why)
+			viaBlock := t.Prob(1, 3)
+			tx, why := acceptTxVia(raw, viaBlock)
+			c.Logf("  -> sender-check-first=%v accepted=%v %s", viaBlock, tx != nil, why)
 			if tx == nil {
 				if fault == 0 {
 					c.Probe("unaltered_rejected")
